@@ -52,8 +52,8 @@ def kw_call_hook(I, st, f, args, kwargs, node):
     elif f.k == "format":
         emp = z3.BoolVal(True)
     else:
-        for idx, g in enumerate(kw_pre(I.repo, d, f.k, schema, value, instance)):
-            s = core.require(I, s, "kw[%s].pre%d" % (f.k, idx), g, "precondition of the keyword function contract")
+        s = core.require(I, s, "kw[%s].pre" % f.k, z3.And(kw_pre(I.repo, d, f.k, schema, value, instance)),
+                         "precondition of the keyword function contract (schema object accepted by the draft, schema[k] == value, JSON instance, patterns compile)")
         emp = drafts.K[f.k](o, d, value, instance, schema)
     gen = Gen("kw:" + f.k, (scope, value.t, instance.t, schema.t), emp,
               {"keyword": f.k, "function": f.fkey, "value": value, "instance": instance, "schema": schema, "scope": scope})
@@ -356,3 +356,74 @@ def core_tasks(root, timeout_ms=20000, drafts_=(3, 4, 6, 7), which=("iter_errors
             t.weight = 40 if w == "iter_errors" else 2
             out.append(t)
     return out
+
+
+class IdOfTask:
+    """id_of of draft d: returns schema[ID_KEY[d]] when present, "" otherwise (and "" for boolean
+    schemas from draft 6 on); reads no other member (C10, C02)."""
+    weight = 1
+
+    def __init__(self, root, d, timeout_ms=10000):
+        self.root, self.d, self.timeout_ms = root, d, timeout_ms
+        self.name = "id_of@draft%d" % d
+
+    def cache_key(self):
+        from pyvc import driver
+        return "idof|%s|%s" % (self.name, driver.dep_hash(self.root, modules=("validators",)))
+
+    def run(self):
+        t0 = time.time()
+        res = {"task": self.name, "function": None, "draft": self.d, "obligations": [], "status": "ok", "paths": 0}
+        try:
+            self._run(res)
+        except OutOfSubset as e:
+            res["status"], res["detail"] = "out-of-subset", str(e)
+        except Exception as e:      # noqa
+            res["status"], res["detail"] = "crash", "%s\n%s" % (e, traceback.format_exc())
+        res["wall_s"] = round(time.time() - t0, 3)
+        return res
+
+    def _run(self, res):
+        from pyvc import frames
+        d = self.d
+        repo = extract.Repo(self.root)
+        core.register_wf_axioms(repo)
+        tabs = tables_mod.draft_tables(repo)
+        key = tabs[d].id_of
+        res["function"] = key
+        unit = repo.unit(key)
+        res["source_hash"] = unit.source_hash()
+        ctx = Ctx(repo, contracts={}, config={})
+        I = Interp(ctx)
+        st = State()
+        st.unit = unit
+        schema = SV(z3.Const("schema", V))
+        st.pc.extend([smt.isjson(schema.t), core.WF[d](schema.t),
+                      core.meta_eval(repo, d, schema, keys=[drafts.ID_KEY[d]])])
+        outs = I.run_unit(unit, st, [schema], {})
+        res["paths"] = len(outs)
+        idk = z3.StringVal(drafts.ID_KEY[d])
+        obls = []
+        n = 0
+        for s, ctl in outs:
+            n += 1
+            if ctl[0] == "raise":
+                obls.append(core.Obligation("%s/S/raise:%s" % (self.name, ctl[1].cls), "S", s.pc, False, note="id_of raises on an accepted schema"))
+                continue
+            r = ctl[1]
+            from pyvc.interp import to_sv
+            rt = to_sv(r).t
+            expected = z3.If(z3.And(kind(schema.t) == K_DICT, dhas(schema.t, idk)), dget(schema.t, idk), smt.mk_str(z3.StringVal("")))
+            obls.append(core.Obligation("%s/F/result#%d" % (self.name, n), "F", s.pc, rt == expected,
+                                        note="id_of(schema) == schema[%r] if present else ''" % drafts.ID_KEY[d]))
+        for ob in obls:
+            ob.check(self.timeout_ms)
+            res["obligations"].append({"name": ob.name, "kind": ob.kind, "status": ob.status, "solver": ob.solver,
+                                       "time_s": round(ob.time_s, 3), "note": ob.note, "reason": ob.reason})
+        # read frame of id_of
+        pname = frames.param_names(unit.node)[0]
+        keys, problems, _ = frames.schema_reads(repo, key, pname)
+        ok = keys == {drafts.ID_KEY[d]} and not problems
+        res["obligations"].append({"name": "%s/R/reads" % self.name, "kind": "R", "status": "discharged" if ok else "failed",
+                                   "solver": "frames", "time_s": 0.0,
+                                   "note": "id_of reads only %r (found %s %s)" % (drafts.ID_KEY[d], sorted(keys), problems)})
